@@ -31,7 +31,7 @@ ASSUMPTIONS = ["well-formed optional fields only; Z values never end in a blank 
 
 
 def plan(tier):
-    return {"cases": 640 if tier == "quick" else 15000, "shards": 16,
+    return {"cases": 640 if tier == "quick" else 60000, "shards": 16,
             "shard_budget_s": 400 if tier == "quick" else 3300}
 
 
